@@ -432,6 +432,8 @@ class Model(Object):
             for attr, value in reaction.__dict__.items():
                 if attr not in do_not_copy_by_ref:
                     new_reaction.__dict__[attr] = copy(value)
+            new_reaction.notes = deepcopy(reaction.notes)
+            new_reaction.annotation = deepcopy(reaction.annotation)
             new_reaction._model = new
             new.reactions.append(new_reaction)
             # update awareness
@@ -450,6 +452,8 @@ class Model(Object):
             for attr, value in group.__dict__.items():
                 if attr not in do_not_copy_by_ref:
                     new_group.__dict__[attr] = copy(value)
+            new_group.notes = deepcopy(group.notes)
+            new_group.annotation = deepcopy(group.annotation)
             new_group._model = new
             new.groups.append(new_group)
         for group in self.groups:
